@@ -1,4 +1,348 @@
-/-! native driver `Lin` (stub; replaced by the area's real driver) -/
-def main (_args : List String) : IO UInt32 := do
-  IO.println "stub"
+import PPLV.Lin.Ops
+
+/-! `pplv_lin`: replays a polyhedron journal on the reference model and decides every
+observation with the verified K1 procedures.  See `harness/c01_poly.cc` for the grammar. -/
+open PPLV.Lin
+
+structure St where
+  slots : Array (Option RefPoly) := Array.replicate 16 none
+  hints : Array (Option (List Gen)) := Array.replicate 16 none
+  lastOp : Option (Nat × RefPoly) := none      -- slot and model value before the last op
+  maxGens : Nat := 9
+  nOk : Nat := 0
+  nBad : Nat := 0
+  nSkip : Nat := 0
+
+abbrev M := StateT St IO
+
+def tokInt (s : String) : Int := s.toInt?.getD 0
+def tokNat (s : String) : Nat := s.toNat?.getD 0
+
+/-- parse `n` integers -/
+def takeInts (n : Nat) (ts : List String) : List Int × List String :=
+  ((ts.take n).map tokInt, ts.drop n)
+
+def parseCon (n : Nat) (ts : List String) : List Con × List String :=
+  match ts with
+  | rel :: k :: rest =>
+    let (cf, rest') := takeInts n rest
+    let kk := tokInt k
+    let rows := if rel == "=" then eqRows cf kk else if rel == ">" then [gtRow cf kk] else [geRow cf kk]
+    (rows, rest')
+  | _ => ([], [])
+
+def parseCS (n : Nat) (ts : List String) : List Con × List String :=
+  match ts with
+  | m :: rest =>
+    let rec go (k : Nat) (ts : List String) (acc : List Con) : List Con × List String :=
+      match k with
+      | 0 => (acc, ts)
+      | k+1 => let (rows, ts') := parseCon n ts; go k ts' (acc ++ rows)
+    go (tokNat m) rest []
+  | [] => ([], [])
+
+def parseGen (n : Nat) (ts : List String) : Option Gen × List String :=
+  match ts with
+  | kd :: d :: rest =>
+    let (cf, rest') := takeInts n rest
+    let kind := if kd == "l" then GKind.line else if kd == "r" then .ray else if kd == "p" then .point else .cpoint
+    (some ⟨kind, cf, tokInt d⟩, rest')
+  | _ => (none, [])
+
+def parseGS (n : Nat) (ts : List String) : List Gen × List String :=
+  match ts with
+  | m :: rest =>
+    let rec go (k : Nat) (ts : List String) (acc : List Gen) : List Gen × List String :=
+      match k with
+      | 0 => (acc, ts)
+      | k+1 => match parseGen n ts with
+        | (some g, ts') => go k ts' (acc ++ [g])
+        | (none, ts') => (acc, ts')
+    go (tokNat m) rest []
+  | [] => ([], [])
+
+def parseExpr (n : Nat) (ts : List String) : LinExpr × List String :=
+  match ts with
+  | k :: rest => let (cf, rest') := takeInts n rest; (⟨cf, tokInt k⟩, rest')
+  | [] => (⟨[], 0⟩, [])
+
+def parseRel (s : String) : Rel :=
+  if s == "<" then .lt else if s == "<=" then .le else if s == "=" then .eq else if s == ">=" then .ge else .gt
+
+def getSlot (i : Nat) : M (Option RefPoly) := do return (← get).slots.getD i none
+def setSlot (i : Nat) (p : RefPoly) : M Unit :=
+  modify fun s => { s with slots := s.slots.setIfInBounds i (some p) }
+def getHint (i : Nat) : M (Option (List Gen)) := do return (← get).hints.getD i none
+def clearHints : M Unit := modify fun s => { s with hints := Array.replicate 16 none }
+
+def ok (ln : Nat) : M Unit := do
+  modify fun s => { s with nOk := s.nOk + 1 }
+  IO.println s!"ok {ln}"
+def bad (ln : Nat) (what : String) : M Unit := do
+  modify fun s => { s with nBad := s.nBad + 1 }
+  IO.println s!"MISMATCH {ln} {what}"
+def skip (ln : Nat) (why : String) : M Unit := do
+  modify fun s => { s with nSkip := s.nSkip + 1 }
+  IO.println s!"skip {ln} {why}"
+
+/-- keep the model small: drop rows implied by the others when the system grows -/
+def shrink (p : RefPoly) : RefPoly :=
+  if p.cs.length ≤ 12 then p else { p with cs := dropRedundant p.n [] (tidy p.cs) }
+
+def b2s (b : Bool) : String := if b then "1" else "0"
+
+/-- apply an operator to the model; `none` = operator not modelled (slot becomes unknown) -/
+def applyOp (p : RefPoly) (name : String) (args : List String) (other : Nat → Option RefPoly)
+    (hint : Nat → Option (List Gen)) (self : Nat) : Option RefPoly :=
+  let n := p.n
+  match name, args with
+  | "add_cons", a => some (p.addCons (parseCS n a).1)
+  | "refine_cons", a =>
+    let rows := (parseCS n a).1
+    some (p.addCons (if p.nnc then rows else relax rows))
+  | "meet", [t] => (other (tokNat t)).map fun q => p.meet q
+  | "concat", [t] => (other (tokNat t)).map fun q => p.concat q
+  | "aff_img", v :: d :: a => some (p.affineImage (tokNat v) (parseExpr n a).1 (tokInt d))
+  | "aff_pre", v :: d :: a => some (p.affinePreimage (tokNat v) (parseExpr n a).1 (tokInt d))
+  | "gen_img", v :: r :: d :: a => some (p.genAffineImage (tokNat v) (parseRel r) (parseExpr n a).1 (tokInt d))
+  | "gen_pre", v :: r :: d :: a => some (p.genAffinePreimage (tokNat v) (parseRel r) (parseExpr n a).1 (tokInt d))
+  | "gen_img2", r :: a =>
+    let (lhs, a') := parseExpr n a
+    let (rhs, _) := parseExpr n a'
+    some (p.genAffineImage2 lhs (parseRel r) rhs)
+  | "gen_pre2", r :: a =>
+    let (lhs, a') := parseExpr n a
+    let (rhs, _) := parseExpr n a'
+    some (p.genAffinePreimage2 lhs (parseRel r) rhs)
+  | "bnd_img", v :: d :: a =>
+    let (lb, a') := parseExpr n a
+    let (ub, _) := parseExpr n a'
+    some (p.boundedAffineImage (tokNat v) lb ub (tokInt d))
+  | "bnd_pre", v :: d :: a =>
+    let (lb, a') := parseExpr n a
+    let (ub, _) := parseExpr n a'
+    some (p.boundedAffinePreimage (tokNat v) lb ub (tokInt d))
+  | "unconstrain", _ :: vs => some (p.unconstrain (vs.map tokNat))
+  | "closure", _ => some p.closure
+  | "add_dims_embed", [m] => some (p.addDimsEmbed (tokNat m))
+  | "add_dims_project", [m] => some (p.addDimsProject (tokNat m))
+  | "remove_dims", _ :: vs => some (p.removeDims (vs.map tokNat))
+  | "remove_higher", [m] => some (p.removeHigherDims (tokNat m))
+  | "map_dims", nOut :: _ :: prs =>
+    let rec pairs : List String → List (Nat × Nat)
+      | a :: b :: r => (tokNat a, tokNat b) :: pairs r
+      | _ => []
+    some (p.mapDims (tokNat nOut) (pairs prs))
+  | "expand", [v, m] => some (p.expandDim (tokNat v) (tokNat m))
+  | "add_gens", a =>
+    let gs := (parseGS n a).1
+    if p.isEmpty then some (RefPoly.ofGens p.nnc n gs)
+    else (hint self).map fun hg => RefPoly.ofGens p.nnc n (hg ++ gs)
+  | "hull", [t] =>
+    match other (tokNat t) with
+    | none => none
+    | some q =>
+      if p.isEmpty then some { q with nnc := p.nnc }
+      else if q.isEmpty then some p
+      else match hint self, hint (tokNat t) with
+        | some g1, some g2 => some (RefPoly.ofGens p.nnc n (g1 ++ g2))
+        | _, _ => none
+  | "time_elapse", [t] =>
+    match other (tokNat t) with
+    | none => none
+    | some q =>
+      if p.isEmpty || q.isEmpty then some (emptyP p.nnc n)
+      else match hint self, hint (tokNat t) with
+        | some g1, some g2 => some (RefPoly.ofGens p.nnc n (timeElapseGens g1 g2))
+        | _, _ => none
+  | _, _ => none
+
+def supStr : Sup → String
+  | .empty => "empty"
+  | .unbounded => "unbounded"
+  | .val p q a => s!"{p}/{q} att={b2s a}"
+
+/-- compare a reported optimum `num/den` with the model's -/
+def supMatches (s : Sup) (num den : Int) (incl : Bool) : Bool :=
+  match s with
+  | .val p q a => decide (p * den = num * q) && (a == incl)
+  | _ => false
+
+def processLine (ln : Nat) (line : String) : M Unit := do
+  let ts := (line.trimAscii.toString.splitOn " ").filter (· ≠ "")
+  match ts with
+  | "hist" :: _ => do
+    modify fun s => { s with slots := Array.replicate 16 none, hints := Array.replicate 16 none, lastOp := none }
+  | "new" :: s :: topo :: n :: kind :: rest => do
+    let nn := tokNat n
+    let nnc := topo == "N"
+    let p : RefPoly :=
+      if kind == "univ" then univ nnc nn
+      else if kind == "empty" then emptyP nnc nn
+      else if kind == "cons" then ⟨nnc, nn, (parseCS nn rest).1⟩
+      else RefPoly.ofGens nnc nn (parseGS nn rest).1
+    setSlot (tokNat s) p
+  | ["copy", d, s] => do
+    match ← getSlot (tokNat s) with
+    | some p => setSlot (tokNat d) p
+    | none => modify fun st => { st with slots := st.slots.setIfInBounds (tokNat d) none }
+  | ["swap", a, b] => do
+    let pa ← getSlot (tokNat a); let pb ← getSlot (tokNat b)
+    modify fun st => { st with slots := (st.slots.setIfInBounds (tokNat a) pb).setIfInBounds (tokNat b) pa }
+  | "hint" :: s :: "gens" :: rest => do
+    match ← getSlot (tokNat s) with
+    | some p =>
+      let gs := (parseGS p.n rest).1
+      if gs.length > (← get).maxGens then skip ln "hint-too-large"
+      else if gensWF p.n gs && checkDD p.n p.cs gs then
+        modify fun st => { st with hints := st.hints.setIfInBounds (tokNat s) (some gs) }
+        ok ln
+      else
+        bad ln s!"hint: generators of a copy of slot {s} do not denote the model set"
+    | none => skip ln "unknown-slot"
+  | "op" :: s :: name :: args => do
+    let si := tokNat s
+    match ← getSlot si with
+    | some p =>
+      let st ← get
+      let r := applyOp p name args (fun i => st.slots.getD i none) (fun i => st.hints.getD i none) si
+      modify fun st => { st with lastOp := some (si, p),
+                                 slots := st.slots.setIfInBounds si (r.map shrink) }
+      clearHints
+    | none => clearHints
+  | "exc" :: cls :: _ => do
+    -- the preceding operation threw: the library must have left the object unchanged
+    match (← get).lastOp with
+    | some (si, p) => setSlot si p; bad ln s!"unexpected exception {cls}"
+    | none => bad ln s!"unexpected exception {cls}"
+  | "obs" :: s :: kind :: rest => do
+    match ← getSlot (tokNat s) with
+    | none => skip ln "unknown-slot"
+    | some p =>
+      if kind == "cons" || kind == "mcons" then
+        let cs := (parseCS p.n rest).1
+        if equivB p.n p.cs cs then do
+          ok ln
+          setSlot (tokNat s) { p with cs := cs }     -- same set, smaller representative
+        else do
+          bad ln s!"{kind} of slot {s} do not denote the model set (model rows: {p.cs.length})"
+          setSlot (tokNat s) { p with cs := cs }     -- re-base: one defect, one report
+      else
+        let gs := (parseGS p.n rest).1
+        if !gensWF p.n gs then bad ln s!"{kind}: ill-formed generator system"
+        else if gs.length > (← get).maxGens then
+          -- cheap direction only: every generator lies in the model set
+          let okAll := gs.all fun g =>
+            match g.kind with
+            | .point => p.hasPoint g.coords g.div
+            | .cpoint => ({ p with cs := relax p.cs } : RefPoly).hasPoint g.coords g.div
+            | .ray => p.hasRay g.coords
+            | .line => p.hasRay g.coords && p.hasRay (g.coords.map (- ·))
+          if okAll then skip ln "size-skipped" else bad ln s!"{kind}: a generator lies outside the model set"
+        else if checkDD p.n p.cs gs then ok ln
+        else do
+          bad ln s!"{kind} of slot {s} do not denote the model set"
+          setSlot (tokNat s) (RefPoly.ofGens p.nnc p.n gs)
+  | "q" :: s :: qn :: rest => do
+    match ← getSlot (tokNat s) with
+    | none => skip ln "unknown-slot"
+    | some p =>
+      let st ← get
+      let other (t : String) : Option RefPoly := st.slots.getD (tokNat t) none
+      let cmpB (model : Bool) (ans : String) : M Unit :=
+        if b2s model == ans then ok ln else bad ln s!"{qn}: library {ans}, set dictates {b2s model}"
+      let withOther (t : String) (f : RefPoly → M Unit) : M Unit :=
+        match other t with
+        | some q => f q
+        | none => skip ln "unknown-slot"
+      if qn == "is_empty" then cmpB p.isEmpty (rest.getD 0 "")
+      else if qn == "is_universe" then cmpB p.isUniverse (rest.getD 0 "")
+      else if qn == "is_bounded" then cmpB p.isBounded (rest.getD 0 "")
+      else if qn == "is_closed" then cmpB p.isClosed (rest.getD 0 "")
+      else if qn == "contains" then withOther (rest.getD 0 "") fun q => cmpB (p.contains q) (rest.getD 1 "")
+      else if qn == "strictly_contains" then
+        withOther (rest.getD 0 "") fun q => cmpB (p.contains q && !q.contains p) (rest.getD 1 "")
+      else if qn == "disjoint" then withOther (rest.getD 0 "") fun q => cmpB (p.disjoint q) (rest.getD 1 "")
+      else if qn == "equals" then withOther (rest.getD 0 "") fun q => cmpB (p.equiv q) (rest.getD 1 "")
+      else if qn == "constrains" then cmpB (p.constrains (tokNat (rest.getD 0 ""))) (rest.getD 1 "")
+      else if qn == "affdim" then
+        let d := rest.getD 0 ""
+        if p.affineDim == tokNat d then ok ln else bad ln s!"affine_dimension: library {d}, set dictates {p.affineDim}"
+      else if qn == "relcon" then
+        -- args: <con> then 4 flags: disjoint strictly_intersects included saturates
+        let args := rest
+        let (rows, r') := parseCon p.n args
+        match r' with
+        | [fd, fs, fi, fsat] =>
+          let rel := args.getD 0 ""
+          let k := args.getD 1 ""
+          let cf := (takeInts p.n (args.drop 2)).1
+          let hyper := eqRows cf (tokInt k)
+          let rows' := if rel == "=" then hyper else rows
+          let (dj, inc, sat) := p.relCon rows' hyper
+          let si := !dj && !inc
+          let good := (fd == b2s dj) && (fi == b2s inc) && (fs == b2s si) && (fsat == b2s sat)
+          if good then ok ln
+          else bad ln s!"relation_with(constraint): library D{fd} S{fs} I{fi} T{fsat}, set dictates D{b2s dj} S{b2s si} I{b2s inc} T{b2s sat}"
+        | _ => skip ln "parse"
+      else if qn == "relgen" then
+        match parseGen p.n rest with
+        | (some g, [a]) =>
+          let sub :=
+            !p.isEmpty && match g.kind with
+              | .point => p.hasPoint g.coords g.div
+              | .cpoint => ({ p with cs := relax p.cs } : RefPoly).hasPoint g.coords g.div
+              | .ray => p.hasRay g.coords
+              | .line => p.hasRay g.coords && p.hasRay (g.coords.map (- ·))
+          cmpB sub a
+        | _ => skip ln "parse"
+      else if qn == "bounds_above" then
+        let (e, r) := parseExpr p.n rest
+        cmpB (match p.sup e with | .unbounded => false | _ => true) (r.getD 0 "")
+      else if qn == "bounds_below" then
+        let (e, r) := parseExpr p.n rest
+        cmpB (match p.inf e with | .unbounded => false | _ => true) (r.getD 0 "")
+      else if qn == "max" || qn == "min" then
+        let (e, r) := parseExpr p.n rest
+        let s := if qn == "max" then p.sup e else p.inf e
+        match r with
+        | ["none"] =>
+          (match s with
+           | .val .. => bad ln s!"{qn}: library reports no optimum, set dictates {supStr s}"
+           | _ => ok ln)
+        | num :: den :: incl :: gt =>
+          if !supMatches s (tokInt num) (tokInt den) (incl == "1") then
+            bad ln s!"{qn}: library {num}/{den} incl={incl}, set dictates {supStr s}"
+          else
+            -- witness: a point (or closure point) of the closure where the value is attained
+            match parseGen p.n gt with
+            | (some g, _) =>
+              let inCl := ({ p with cs := relax p.cs } : RefPoly).hasPoint g.coords g.div
+              let v := (List.zipWith (· * ·) e.coeffs g.coords).foldl (· + ·) 0 + e.k * g.div
+              if inCl && decide (v * tokInt den = tokInt num * g.div) &&
+                 (incl == "0" || p.hasPoint g.coords g.div) then ok ln
+              else bad ln s!"{qn}: witness point does not attain the optimum inside the set"
+            | _ => ok ln
+        | _ => skip ln "parse"
+      else skip ln s!"unknown-query {qn}"
+  | "crash" :: sig => do
+    bad ln s!"crash {" ".intercalate sig}"
+  | _ => pure ()
+
+partial def loop (h : IO.FS.Stream) (ln : Nat) : M Unit := do
+  let line ← h.getLine
+  if line.isEmpty then return ()
+  let t0 ← IO.monoMsNow
+  processLine ln line
+  let t1 ← IO.monoMsNow
+  if t1 - t0 > 200 then IO.eprintln s!"slow {ln} {t1 - t0}ms {line.take 60}"
+  loop h (ln + 1)
+
+def main (args : List String) : IO UInt32 := do
+  let maxG := match args with
+    | ["--max-gens", k] => k.toNat?.getD 9
+    | _ => 9
+  let stdin ← IO.getStdin
+  let ((), st) ← (loop stdin 1).run { maxGens := maxG }
+  IO.println s!"summary ok={st.nOk} mismatch={st.nBad} skipped={st.nSkip}"
   return 0
